@@ -67,12 +67,12 @@ Section Defs.
     forall x a, In x pend -> inside (Reference (e_sub e) (e_idx e) a) x ->
       In (Reference (e_sub e) (e_idx e) a) (map fst (e_refs e)).
 
-  (** Every name of [S] is the key of some entry, which, from table position
-      [i] on, holds [S] itself. *)
+  (** Every name of [S] is the key of some entry with the same index, which,
+      from table position [i] on, holds [S] itself. *)
   Definition named_in (i : nat) (t : table) (S : node) : Prop :=
     forall k, (k < length (names_of S))%nat ->
       exists j e, nth_error t j = Some e /\ e_key e = norm (nth k (names_of S) []) /\
-                  (i <= j -> e_sub e = S)%nat.
+                  e_idx e = k /\ (i <= j -> e_sub e = S)%nat.
 
   (** Two entries with the same sub recipe and index are the same entry. *)
   Lemma entry_named_key e1 e2 :
@@ -82,4 +82,16 @@ Section Defs.
     intros (b1 & n1 & s1 & H1 & _ & K1) Hs Hi (b2 & n2 & s2 & H2 & _ & K2).
     rewrite K1, K2. rewrite Hs, H2 in H1. inversion H1; subst. now rewrite Hi.
   Qed.
+
+  (** The invariant of pass 2 before the turn of table position [i]:
+      entries at positions [>= i] are "live". *)
+  Record Inv2 (i : nat) (bs : list (list node)) (t : table) : Prop := {
+    i2_K : keys_distinct t;
+    i2_KN : forall j e, nth_error t j = Some e -> (i <= j)%nat -> entry_named e;
+    i2_T : forall j e, nth_error t j = Some e -> (i <= j)%nat ->
+             exists trees, nth_error bs (e_def_block e) = Some trees /\ In (e_sub e) trees;
+    i2_C : forall j e, nth_error t j = Some e -> (i <= j)%nat -> entry_refs_ok e;
+    i2_U : forall j e, nth_error t j = Some e -> (i <= j)%nat -> entry_uses (concat bs) e;
+    i2_NL : forall x S, In x (concat bs) -> chain S x -> is_subrecipe S = true -> named_in i t S;
+    i2_V : strictly_valid bs }.
 End Defs.
